@@ -799,6 +799,9 @@ impl Issuer {
 
         let mut pow_acc = GroupOrderElement::zero()?;
         for (rev_idx, remove) in updates {
+            if rev_idx == 0 || rev_idx > max_cred_num {
+                return Err(err_msg!("Revocation index is outside of valid range"));
+            }
             let index = Self::_get_index(max_cred_num, rev_idx);
             let index_pow = Tail::index_pow(index, &rev_key_priv.gamma)?;
             if remove {
